@@ -439,3 +439,62 @@ func (n *Node) RawQueryStats(sql string, includeMem bool, timeout time.Duration)
 	}
 	return rows, stats, err
 }
+
+// QueryOpts controls the context a query runs under (C13).
+type QueryOpts struct {
+	DeadlineMs int // 0: no deadline, < 0: already expired, > 0: expires after that many ms
+	StallAtRow int // >= 0: the row callback, called for row StallAtRow (0-based), waits until the deadline has passed; -1: never
+	StopAfter  int // > 0: the consumer says "no more" after that many rows
+}
+
+// RawQueryOpts runs sql under the given options and returns rows, statistics and error.
+func (n *Node) RawQueryOpts(sql string, includeMem bool, o QueryOpts) ([]RawRow, interface{}, error) {
+	src, err := n.DB.Query(sql, false, nil, includeMem)
+	if err != nil {
+		return nil, nil, err
+	}
+	ctx := context.Background()
+	var deadline time.Time
+	if o.DeadlineMs != 0 {
+		deadline = time.Now().Add(time.Duration(o.DeadlineMs) * time.Millisecond)
+		var cancel context.CancelFunc
+		ctx, cancel = context.WithDeadline(ctx, deadline)
+		defer cancel()
+	}
+	var names []string
+	var rows []RawRow
+	var stats interface{}
+	tick := n.Opts.Tick()
+	iterate := func() error {
+		st, err := src.Iterate(ctx, func(f core.Fields) error {
+			names = f.Names()
+			return nil
+		}, func(row *core.FlatRow) (bool, error) {
+			if o.StallAtRow >= 0 && len(rows) == o.StallAtRow && !deadline.IsZero() {
+				if d := time.Until(deadline); d > 0 {
+					time.Sleep(d)
+				}
+				time.Sleep(15 * time.Millisecond)
+			}
+			dims := bytemap.ByteMap(row.Key).AsMap()
+			r := RawRow{Key: KeyString(dims), Per: int64(time.Unix(0, row.TS).Sub(Epoch) / tick), Vals: map[string]float64{}, Dims: dims}
+			for i, v := range row.Values {
+				if i < len(names) {
+					r.Vals[names[i]] = v
+				}
+			}
+			rows = append(rows, r)
+			return o.StopAfter <= 0 || len(rows) < o.StopAfter, nil
+		})
+		stats = st
+		return err
+	}
+	errCh := make(chan error, 1)
+	go func() { errCh <- iterate() }()
+	select {
+	case err = <-errCh:
+	case <-time.After(30 * time.Second):
+		return nil, nil, fmt.Errorf("query did not return within 30s")
+	}
+	return rows, stats, err
+}
